@@ -68,17 +68,89 @@ def guarded(f):
         return {"err": ERR.get(n, "EOther:" + n), "msg": str(e)[:200]}
 
 
+QUERY_NAMES = ("get_actual_proximal", "get_segment_length", "get_segment_adjacency_list", "get_graph",
+               "get_morphology_root", "get_branching_points", "get_extremeties", "get_distance",
+               "get_all_distances_from_segment", "get_segments_at_distance", "get_ordered_segments_in_groups")
+
+
+def run_query(c, name):
+    """one call of the named query method with some valid arguments (result discarded; exceptions swallowed)"""
+    segs = c.morphology.segments
+    last = segs[-1].id
+
+    def f():
+        if name == "get_actual_proximal":
+            return c.get_actual_proximal(last)
+        if name == "get_segment_length":
+            return c.get_segment_length(last)
+        if name == "get_distance":
+            return c.get_distance(last, source=c.get_morphology_root())
+        if name == "get_all_distances_from_segment":
+            return c.get_all_distances_from_segment(c.get_morphology_root())
+        if name == "get_segments_at_distance":
+            return c.get_segments_at_distance(1.0, src_seg=c.get_morphology_root())
+        if name == "get_ordered_segments_in_groups":
+            gs = [g.id for g in c.morphology.segment_groups][:1]
+            return c.get_ordered_segments_in_groups(gs, include_cumulative_lengths=True, include_path_lengths=True)
+        return getattr(c, name)()
+    return guarded(f)
+
+
+def snapshot_rows(c):
+    """the cell's segments as they are now: [id, parent|None, fraction|None, prox|None, dist] with exact ratios"""
+    rows = []
+    for s in c.morphology.segments:
+        rows.append([s.id, None if s.parent is None else s.parent.segments,
+                     None if s.parent is None else q(float(s.parent.fraction_along)),
+                     None if s.proximal is None else qpt(s.proximal), qpt(s.distal)])
+    return rows
+
+
+def cached_adjacency(c):
+    a = getattr(c, "adjacency_list", None)
+    return None if a is None else [[k, list(v)] for k, v in a.items()]
+
+
+def apply_history(c, steps):
+    """things a user does with the SAME Cell object before the measured calls"""
+    for st in steps:
+        kind = st[0]
+        if kind == "query":
+            run_query(c, st[1])
+        elif kind == "all_queries":
+            for nme in QUERY_NAMES:
+                run_query(c, nme)
+        elif kind == "section":
+            guarded(lambda: c.create_unbranched_segment_group_branches(st[1], reorder_segment_groups=st[2],
+                                                                      optimise_segment_groups=st[3]))
+        elif kind == "remove_segment":
+            # edit in place, then refresh the caches the documented way
+            c.morphology.segments[:] = [s for s in c.morphology.segments if s.id != st[1]]
+            guarded(lambda: c.get_segment_adjacency_list())
+            guarded(lambda: c.get_graph())
+        else:
+            raise ValueError("unknown history step %r" % (st,))
+
+
 def run_case(case):
     c = build_cell(case)
     out = {}
-    sids = [s[0] for s in case["segs"]]
+    if case.get("history"):
+        apply_history(c, case["history"])
+        out["snapshot"] = snapshot_rows(c)
+        out["adj_cached"] = cached_adjacency(c)
+    sids = [s.id for s in c.morphology.segments]
     if case.get("only_aprox") is not None:
         # a single deep query (recursion-depth witness): nothing else is computed
         out["aprox"] = [[i, guarded(lambda i=i: qpt(c.get_actual_proximal(i)))] for i in case["only_aprox"]]
         return out
+    if case.get("graph_first"):
+        # graph-based queries BEFORE the adjacency list is recomputed
+        guarded(lambda: c.get_graph())
     out["aprox"] = [[i, guarded(lambda i=i: qpt(c.get_actual_proximal(i)))] for i in sids]
     out["lens"] = [[i, guarded(lambda i=i: q(float(c.get_segment_length(i))))] for i in sids]
-    out["adj"] = guarded(lambda: [[k, list(v)] for k, v in c.get_segment_adjacency_list().items()])
+    if not case.get("graph_first"):
+        out["adj"] = guarded(lambda: [[k, list(v)] for k, v in c.get_segment_adjacency_list().items()])
 
     def graph():
         g = c.get_graph()
@@ -100,6 +172,8 @@ def run_case(case):
         out["default_dist"] = [[d, guarded(lambda d=d: q(float(c.get_distance(d))))] for d in sids]
         out["default_all"] = guarded(lambda: [[k, q(float(v))] for k, v in c.get_all_distances_from_segment()[0].items()])
 
+    if case.get("graph_first"):
+        out["adj"] = guarded(lambda: [[k, list(v)] for k, v in c.get_segment_adjacency_list().items()])
     gid = case.get("group")
     if gid is not None:
         def both():
